@@ -300,7 +300,8 @@ func (p *FSM) Update(updates []sm.Entry) ([]sm.Entry, error) {
 			return nil, err
 		}
 
-		if len(res.Responses) > 0 {
+		// A transaction always reports its revision, also when the executed branch is empty.
+		if _, isTxn := cmd.(commandTxn); isTxn || len(res.Responses) > 0 {
 			bts, err := res.MarshalVT()
 			if err != nil {
 				return nil, err
